@@ -1737,15 +1737,18 @@ fn predict<I: SignedInteger>(coefficients: &[i64], qlp_shift: u32, channel: &mut
     for split in coefficients.len()..channel.len() {
         let (predicted, residuals) = channel.split_at_mut(split);
 
-        residuals[0] += I::from_i64(
-            predicted
-                .iter()
-                .rev()
-                .zip(coefficients)
-                .map(|(x, y)| (*x).into() * y)
-                .sum::<i64>()
-                >> qlp_shift,
-        );
+        // wrapping arithmetic: a malformed stream must not be able to
+        // trigger an overflow panic, and for 32-bit streams the prediction
+        // itself may exceed the sample width even though the sum does not
+        let prediction = predicted
+            .iter()
+            .rev()
+            .zip(coefficients)
+            .fold(0i64, |acc, (x, y)| {
+                acc.wrapping_add((*x).into().wrapping_mul(*y))
+            })
+            >> qlp_shift;
+        residuals[0] = I::from_i64(residuals[0].into().wrapping_add(prediction));
     }
 }
 
